@@ -1,1 +1,2 @@
+pub mod args;
 pub mod wire;
